@@ -48,7 +48,16 @@ VARIANTS = [
       *replace_expr("mh_step(subkey, self.model, proposal, model_state)",
                     "mh_step(key, self.model, proposal, model_state)"),
       note="proposal key reused for the accept draw", expect_rule="C05.R5"),
+    V("c05_corr_added_to_one_density", "M", F, S, *replace_expr(
+        "proposed_log_prob - current_log_prob + log_correction",
+        "proposed_log_prob + log_correction - current_log_prob"),
+      note="the O(1) correction is added to one huge log-density first and rounds away",
+      expect_rule="C05.R1"),
     # ---- twins
+    V("c05_t_corr_first", "T", F, S, *replace_expr(
+        "proposed_log_prob - current_log_prob + log_correction",
+        "log_correction + (proposed_log_prob - current_log_prob)"),
+      note="commuted sum, difference still formed first"),
     V("c05_t_flip", "T", F, S, *replace_expr(
         "jax.random.uniform(prng_key) < acceptance_prob",
         "acceptance_prob > jax.random.uniform(prng_key)"),
